@@ -79,7 +79,8 @@ c04_h!(c04_q_rrect_both, 4, 14, |t| RoundedRectangle::with_equal_corners(Rectang
 c04_h!(c04_q_rrect_fill, 4, 14, |t| RoundedRectangle::with_equal_corners(Rectangle::new(P0, Size::new(5, 5)), Size::new(9, 9)).into_styled(style(0, StrokeAlignment::Inside, c(1), None)).draw(t));
 // triangles / thick polylines: after the symbolic failure point the remaining drawing code runs under
 // a guard and loop bounds stop constant-folding, so these shapes are kept to a few scanlines
-c04_h!(c04_q_triangle_fill_stroke, 4, 8, |t| Triangle::new(Point::new(0, 0), Point::new(3, 0), Point::new(1, 2)).into_styled(style(1, StrokeAlignment::Center, c(1), c(2))).draw(t));
+#[cfg(feature = "thorough")]
+c04_h!(c04_t_triangle_fill_stroke, 4, 8, |t| Triangle::new(Point::new(0, 0), Point::new(3, 0), Point::new(1, 2)).into_styled(style(1, StrokeAlignment::Center, c(1), c(2))).draw(t));
 c04_h!(c04_q_triangle_fill, 3, 8, |t| Triangle::new(Point::new(0, 0), Point::new(3, 1), Point::new(1, 3)).into_styled(style(0, StrokeAlignment::Center, c(1), None)).draw(t));
 #[cfg(feature = "thorough")]
 c04_h!(c04_t_triangle_thick, 5, 30, |t| Triangle::new(Point::new(-2, -1), Point::new(7, 1), Point::new(1, 8)).into_styled(style(3, StrokeAlignment::Inside, c(1), c(2))).draw(t));
